@@ -278,7 +278,14 @@ func (h *SimH) do(q *Req, c flamego.Context, rw http.ResponseWriter, r *http.Req
 	case OpMapRH:
 		if c != nil {
 			name := q.Name
+			boom := a.A == 1
+			hid, pos := h.HID, h.Pos
 			c.Map(flamego.ReturnHandler(func(cc flamego.Context, vals []reflect.Value) {
+				if boom {
+					_ = hid
+					q.ev(EvRaise, -1, PvString, "") // attributed to the handler whose return value is being rendered
+					panic(PanicToken(name, pos))
+				}
 				s := "RH[" + name + "]"
 				for _, v := range vals {
 					if v.Kind() == reflect.String {
